@@ -2,8 +2,8 @@ package main
 
 // C10: replay of integer operator cases on the real gojq (library API).
 //
-// A case names an operator, one or two operands as decimal text, a query
-// mode and the Go representations to give to the operands.  The harness
+// A case names an operator, one or two operands as decimal text and a list of
+// runs: the query mode and the Go representations to give to the operands.  The harness
 // builds the operands (int / *big.Int / json.Number), runs the compiled
 // query and records the dynamic Go type of the result, its value and what
 // gojq.Marshal prints for it.  No arithmetic is done here: digits are only
@@ -244,10 +244,9 @@ func c10Run(code *gojq.Code, input any, vars []any) (res vlib.M) {
 func c10ArithCase(cc *c10Compiler, c map[string]any) (vlib.M, error) {
 	kind, _ := c["kind"].(string)
 	op, _ := c["op"].(string)
-	mode, _ := c["mode"].(string)
 	a, _ := c["a"].(string)
 	b, _ := c["b"].(string)
-	rec := vlib.M{"id": c["id"], "kind": kind, "op": op, "mode": mode}
+	rec := vlib.M{"id": c["id"], "kind": kind, "op": op}
 	az, ok := c10Digits(a)
 	if !ok {
 		return nil, fmt.Errorf("bad operand %q", a)
@@ -261,29 +260,23 @@ func c10ArithCase(cc *c10Compiler, c map[string]any) (vlib.M, error) {
 		}
 		rec["b"] = bz
 	}
-	src, err := c10Query(kind, op, mode, a, b)
-	if err != nil {
-		return nil, err
-	}
-	rec["src"] = src
-	withVars := mode == "var" || mode == "addfn"
-	code, err := cc.get(src, withVars, mode != "lit")
-	if err != nil {
-		return nil, err
-	}
 	runs := []any{}
-	reps, _ := c["reps"].([]any)
-	if mode == "lit" {
-		reps = []any{[]any{"lit", "lit"}}
-	}
-	for _, rp := range reps {
-		p := rp.([]any)
-		la := p[0].(string)
-		lb := ""
-		if len(p) > 1 {
-			lb = p[1].(string)
+	rs, _ := c["runs"].([]any)
+	for _, r := range rs {
+		spec := r.(map[string]any)
+		mode, _ := spec["mode"].(string)
+		la, _ := spec["la"].(string)
+		lb, _ := spec["lb"].(string)
+		src, err := c10Query(kind, op, mode, a, b)
+		if err != nil {
+			return nil, err
 		}
-		run := vlib.M{"la": la}
+		withVars := mode == "var" || mode == "addfn"
+		code, err := cc.get(src, withVars, mode != "lit")
+		if err != nil {
+			return nil, err
+		}
+		run := vlib.M{"mode": mode, "la": la, "src": src}
 		if !unary {
 			run["lb"] = lb
 		}
@@ -313,7 +306,7 @@ func c10ArithCase(cc *c10Compiler, c map[string]any) (vlib.M, error) {
 	return rec, nil
 }
 
-// cmdC10Arith: cases {id, kind, op, mode, a, b, reps} -> records {id, kind, op, mode, src, a, b, runs:[{la, lb, res}]}.
+// cmdC10Arith: cases {id, kind, op, a, b, runs:[{mode, la, lb}]} -> records {id, kind, op, a, b, runs:[{mode, la, lb, src, res}]}.
 func cmdC10Arith(args []string) error {
 	fs := flag.NewFlagSet("c10arith", flag.ExitOnError)
 	in := fs.String("in", "", "cases ndjson")
